@@ -1,6 +1,67 @@
-//! C05 — stub (to be written; see /verif/harness/AUTHORING.md and DESIGN.md §3 C05)
-use vengine::Property;
+//! C05 — every evaluation metric equals its definition recomputed from first principles.
+//!
+//! Sub-checks (heaviest first):
+//!   labels_exhaustive   every pair of label vectors over 2 symbols (length <= 6) and 3 symbols (length <= 5 / 6)
+//!   labels_random       random label vectors, length <= 60, alphabets <= 5, label sets differing between the sides
+//!   regression          max/mean/median absolute error, MSE, MSLE, MAPE, R2, explained variance; f32/f64; 1-D, 2-D, datasets
+//!   roc_random          ROC curve, AUC (= Mann-Whitney), log-loss on grid / boundary / fine scores
+//!   roc_exhaustive      every (score, label) vector over scores {0, 1/2, 1}, length <= 5 / 7
+//!   silhouette          O(n^2) definition, clusters of >= 2 distinct points
+//!   pearson             cov/(sd sd), upper-triangle order
+//! Every sub-check also applies one common permutation and demands unchanged scores.
+
+pub mod bound;
+pub mod cluster;
+pub mod corr;
+pub mod labels;
+pub mod regress;
+pub mod roc;
+
+use vengine::{enum_sub, prop_sub, Property, Tier};
 
 pub fn property() -> Property {
-    Property { id: "C05", rule: "", assumptions: vec![], subs: vec![] }
+    Property {
+        id: "C05",
+        rule: "label vectors: exhaustive over alphabets of 2 symbols (length 1..=6) and 3 symbols (length 1..=5 quick / 6 thorough), both vectors, \
+               label type (bool/usize/String) and beta rotating; random vectors of length <= 60 over <= 5 symbols whose label sets overlap only partly. \
+               Probability vectors: every (score,label) vector over scores {0,1/2,1} up to length 5 (7 thorough) plus random vectors (length 2..=40) over the grid j/8, \
+               the boundaries 0 and 1, a small tie pool and fine scores k/2^20; both classes present. Real vectors/matrices (length 2..=40, 1..=3 columns, f32 and f64): \
+               small integers, halves, N(0,1)*10^s (s in -2..=3), positive data, common offsets up to 1000 spreads, truth non-constant by construction. \
+               Clusterings: 2..=4 clusters of >= 2 distinct points, 4..=30 points in 1..=3 dims (lattice / separated / overlapping). Pearson: n 3..=30, p 2..=5. \
+               Non-trivial = (labels) >= 3 classes or a label present on one side only; (roc) tied scores or a score equal to 0 or 1; \
+               (regression) non-zero mean error, or even length with distinct middle errors, or >= 2 target columns; \
+               (silhouette) >= 3 clusters, unequal cluster sizes or duplicate points; (pearson) >= 3 features or a negative coefficient. \
+               Distinct = distinct canonical JSON of the case.",
+        assumptions: vec![
+            "confusion-matrix cells are private; they are read from the Debug rendering of ConfusionMatrix (header + one row per member). If that rendering changes shape the run is INCONCLUSIVE, not a violation".into(),
+            "cell (i,j) counts receiver label = class i, argument label = class j over the sorted union of labels, reversed when there are exactly two classes (the layout the code comment and test_confusion_matrix pin)".into(),
+            "precision/recall/F-beta are the *documented* functions of the cells: binary c00/(c00+c10) and c00/(c00+c01), otherwise the macro average over the one-vs-all matrices [[tp,fp],[fn,tn]]; 0/0 must be NaN on both sides".into(),
+            format!("scores derived from integer cells are f32; tolerance {:e} * max(1,|value|) (64 eps_f32)", labels::RATIO_TOL),
+            "empty label vectors are not generated (every score is 0/0 there)".into(),
+            format!("ROC scores are multiples of 2^-20 (distinct scores differ by >= 2^-20 >> linfa's 1e-10 merge threshold); AUC tolerance {:e} (64 eps_f32); both classes present", roc::AUC_TOL),
+            "ROC thresholds (get_thresholds) are not part of the statement and are not judged".into(),
+            "log-loss clips to [f32::EPSILON, 1 - f32::EPSILON]; the reference is evaluated in f64 with the error bound below".into(),
+            format!(
+                "mean-type scores: reference = textbook formula in f64 on the exact inputs; tolerance = {} * (first-order forward error bound of evaluating that formula in the element type, any summation order) + {} * u * |value|, u = 2^-24 (f32) / 2^-53 (f64). A score whose bound is infinite (MSLE with 1+x <= 0, division by a quantity that is zero within its own bound) is not judged",
+                bound::SLACK,
+                bound::FLOOR
+            ),
+            "max and median absolute error are compared exactly (order statistics of the element-type differences)".into(),
+            "MAPE is relative to the receiver (as the statement says); it is not judged when the receiver contains an exact zero".into(),
+            "R2 and explained variance carry the documented +1e-10 guard in the denominator; truth columns are non-constant".into(),
+            "explained variance textbook value = 1 - sum (d - mean d)^2 / (SST + 1e-10); linfa's pinned value 1 - (SSE - mean d)/(SST + 1e-10) is recognised by its own signature (known finding), any other deviation fails".into(),
+            "silhouette: Euclidean distances, clusters with fewer than two distinct points are outside the quantifier and are not generated".into(),
+            "Pearson p-values use an entropy-seeded RNG and are outside the statement; cases whose error bound exceeds 0.25 (spread at rounding level of the offset) are not judged".into(),
+            "permutation invariance: exact for confusion matrices, ROC curves/AUC, max/median errors; within 2 tolerances for sums".into(),
+        ],
+        subs: vec![
+            enum_sub("labels_exhaustive", |t: Tier| labels::enum_cases(t), labels::check).chunks(16),
+            prop_sub("labels_random", 4000, 80000, |t: Tier| labels::strategy(t), labels::check).require(&["cells_observed"]),
+            prop_sub("regression", 3000, 60000, |t: Tier| regress::strategy(t), regress::check),
+            prop_sub("roc_random", 4000, 80000, |t: Tier| roc::strategy(t), roc::check),
+            enum_sub("roc_exhaustive", |t: Tier| roc::enum_cases(t), roc::check),
+            prop_sub("silhouette", 1500, 30000, |t: Tier| cluster::strategy(t), cluster::check),
+            prop_sub("pearson", 1500, 30000, |t: Tier| corr::strategy(t), corr::check),
+        ],
+    }
 }
